@@ -176,6 +176,33 @@ SymTrue(b) == IF b.op = "eq" THEN b.a[1] = b.a[2]
 (* The conversion of the typed text to bytes (PDFDocEncoding for R <= 4, SASLprep + UTF-8 for R >= 5) *)
 (* is done before the term language; the terms start from the prepared byte string.                  *)
 
+(* Algorithm 2 (a), first half, revisions 2-4: "the password string is generated ... by first converting the      *)
+(* string to PDFDocEncoding".  The bytes are a function of the TEXT alone - in particular not of whatever other    *)
+(* one-byte encoding the process converted text to before.  Characters on which the predefined encodings of        *)
+(* ISO 32000-1 Annex D.2 differ (code, -1 = the encoding does not have the character):                             *)
+OneByteEncodings == {"PDFDoc", "WinAnsi", "MacRoman", "Standard"}
+PwChars == {"a", "euro", "bullet", "dagger", "eacute", "udieresis"}
+CharCode(e, ch) ==
+    LET four(pdf, win, mac, std) == CASE e = "PDFDoc" -> pdf [] e = "WinAnsi" -> win [] e = "MacRoman" -> mac [] OTHER -> std
+    IN CASE ch = "a"         -> 97
+         [] ch = "euro"      -> four(160, 128, 219, -1)
+         [] ch = "bullet"    -> four(128, 149, 165, 183)
+         [] ch = "dagger"    -> four(129, 134, 160, 178)
+         [] ch = "eacute"    -> four(233, 233, 142, -1)
+         [] ch = "udieresis" -> four(252, 252, 159, -1)
+\* the codes of a text in an encoding (what is not in the encoding produces no byte)
+EncodeText(e, txt) ==
+    LET F[i \in 0..Len(txt)] == IF i = 0 THEN <<>>
+                                ELSE IF CharCode(e, txt[i]) < 0 THEN F[i - 1] ELSE Append(F[i - 1], CharCode(e, txt[i]))
+    IN F[Len(txt)]
+CodeSegId(cs) == LET F[i \in 1..Len(cs)] == IF i = 1 THEN "c" \o ToString(cs[1]) ELSE F[i - 1] \o "_" \o ToString(cs[i])
+                 IN F[Len(cs)]
+\* the prepared password (a symbolic byte string: one segment named after its codes)
+PrepText(e, txt) == LET cs == EncodeText(e, txt) IN IF Len(cs) = 0 THEN Pw(<<>>) ELSE Pw(<<Seg(CodeSegId(cs), Len(cs))>>)
+PrepR234(txt) == PrepText("PDFDoc", txt)
+\* the text has a character whose code in encoding e is not its PDFDocEncoding code
+TableSensitive(e, txt) == \E i \in 1..Len(txt) : CharCode(e, txt[i]) # CharCode("PDFDoc", txt[i])
+
 \* "Pad or truncate the password string to exactly 32 bytes": first 32 bytes of  password || padding string
 Pad32(x) ==
     IF x.op = "pw"
